@@ -15,7 +15,7 @@ META = {
             "-3..4 (some with holes) from a template grammar (expression depth <= 2, connective depth <= 2) and prints each with "
             "its solutions in lexicographic order, the truth value of every constraint on every assignment, and per-variable "
             "projections. Each system is replayed against library(clpz): label/1 after posting domains then constraints and after "
-            "posting the constraints on wide domains (-60..60) that are narrowed afterwards (exact answer sequence), labeling/2 "
+            "posting the constraints on wide domains (-12..12) that are narrowed afterwards (exact answer sequence), labeling/2 "
             "with one of the 30 selection/order/branching combinations (same multiset), labeling/2 with min/max(Expr) (same multiset, objective monotone), every constraint "
             "posted on every ground instance (succeeds iff it holds), and propagation only (fd_dom/fd_inf/fd_sup keep every "
             "value that occurs in a solution; posting fails only if there is no solution). Sampled bounded conformance, not proof.",
@@ -26,10 +26,11 @@ META = {
     "technique": "TLA+ set-comprehension semantics evaluated by TLC on grammar-sampled systems; vectors replayed into the real propagators and labeling",
 }
 
-SETUP = ":- use_module(library(clpz)).\n:- use_module(library(lists)).\n"
+SETUP = ":- use_module(library(clpz)).\n:- use_module(library(lists)).\n:- use_module(library(iso_ext)).\n"
 BATCH = 40
 JOB_TIMEOUT = 900
 SINGLE_TIMEOUT = 240
+WIDE_LIMIT = 10000000   # inferences; a normal query needs ~10^5
 
 
 # ------------------------------------------------------------------------------------------
@@ -115,9 +116,12 @@ def queries(v):
     vs, doms, cons = vs_text(v), doms_text(v), cons_text(v)
     qs = [("label", wrap("Vs = %s, findall(Vs, (%s, %s, label(Vs)), L)" % (vs, doms, cons))),
           # constraints posted while the domains are still wide (propagators start from other bounds), then narrowed.
-          # (Wide but finite: the property quantifies over bounded domains; over unbounded domains posting e.g.
-          # X #>= 3^X does not return - each propagation step exponentiates the previous bound.)
-          ("label_wide_first", wrap("Vs = %s, findall(Vs, (ins(Vs,'..'((-60),60)), %s, %s, label(Vs)), L)" % (vs, cons, doms))),
+          # Wide but finite: the property quantifies over bounded domains (over unbounded domains posting e.g.
+          # X #>= 3^X does not return: each propagation step exponentiates the previous bound).  Bounds propagation of
+          # rem/mod over a wide range steps value by value (X in -60..60, X^3 rem -6 #> 3 needs ~10^8 inferences), so this
+          # variant runs under a deterministic inference limit; exceeding it is "inconclusive", not a verdict.
+          ("label_wide_first", wrap("Vs = %s, call_with_inference_limit(findall(Vs, (ins(Vs,'..'((-12),12)), %s, %s, label(Vs)), L), "
+                                    "%d, R)" % (vs, cons, doms, WIDE_LIMIT))),
           ("labeling", wrap("Vs = %s, findall(Vs, (%s, %s, labeling([%s], Vs)), L)" % (vs, doms, cons, ",".join(v["opts"]))))]
     if v["objdef"]:
         qs.append(("optim", wrap("Vs = %s, findall(Vs, (%s, %s, labeling([%s(%s)], Vs)), L)" % (
@@ -274,10 +278,16 @@ def answer(out):
     return b, None
 
 
+INCONCLUSIVE = "inconclusive"
+
+
 def judge_case(v, kind, out):
     """returns None if the observation agrees with the specification, else a short description"""
     b, why = answer(out)
     sols = [tuple(s) for s in v["sols"]]
+    if b is None and kind == "label_wide_first" and out.get("a") and isinstance(out["a"][0], dict) and \
+            out["a"][0].get("b", {}).get("R") == {"a": "inference_limit_exceeded"}:
+        return INCONCLUSIVE
     if b is None:
         if (why.startswith("error: 'domain_error'('clpz_reifiable_expression'") and "bvar" in v["kinds"] and not sols
                 and not kind.startswith("ground")):
@@ -396,6 +406,7 @@ def run(tier):
     results = run_jobs([{k: j[k] for k in ("id", "steps", "timeout")} for j in jobs],
                        workers=8 if tier == "quick" else 12, job_timeout=JOB_TIMEOUT)
     nq = 0
+    inconclusive = 0
     for job in jobs:
         r = results.get(job["id"], {"crash": "missing"})
         if "crash" in r:
@@ -413,8 +424,11 @@ def run(tier):
         for (vi, kind), out, step in zip(job["index"], outs, job["steps"][1:]):
             v = vecs[vi]
             nq += 1
-            rep.case(cover_class(v, kind))
             bad = judge_case(v, kind, out)
+            if bad == INCONCLUSIVE:
+                inconclusive += 1
+                continue
+            rep.case(cover_class(v, kind))
             if bad:
                 k = "ground" if kind.startswith("ground") else kind
                 what = ctext(v["sys"][int(kind[6:])]) if k == "ground" else "%s ; %s" % (doms_text(v), cons_text(v))
@@ -427,6 +441,7 @@ def run(tier):
         rep.sample({"post": "%s, %s" % (doms_text(v), cons_text(v)), "solutions": len(v["sols"]), "assignments": v["nassign"]})
     rep.traces = len(vecs)
     rep.extra["queries"] = nq
+    rep.extra["wide_first_inference_limit_exceeded"] = inconclusive
     rep.extra["systems_with_solutions"] = sum(1 for v in vecs if v["sols"])
     rep.extra["systems_with_partial_operations"] = sum(1 for v in vecs if v["partial"])
     rep.exhaustive = False
